@@ -194,7 +194,7 @@ COMPILE = [
                        # C04: let / fn statements define the name (at the current block depth) BEFORE the value is compiled, and store into exactly that symbol
                        "r is Ok ==> (verif_param matches Statement::Let(l) ==> { let s = defined_sym(&old(self).symtab, l.name.value@, sc(old(self)).scope_depth); ends_with_ins(final(self), define_op(s.scope), s.index) })",
                        "r is Ok ==> (verif_param matches Statement::Function(f) ==> { let s = defined_sym(&old(self).symtab, f.name@, sc(old(self)).scope_depth); ends_with_ins(final(self), define_op(s.scope), s.index) })"],
-      prologue=BCAST + REFL, attrs=NODEC + ["#[verifier::rlimit(400)]"],
+      prologue=BCAST + REFL, attrs=NODEC + ["#[verifier::rlimit(1000)]"],
       rewrites=[
           dict(rule="R0", re=r"\(&mut self, stmt: Statement\)", to="(&mut self, verif_param: Statement)", expect=1, strict=True, why="parameter renamed (the match arms shadow it; loop invariants need to name it)"),
           dict(rule="R0", re=r"match stmt \{", to="match verif_param {", expect=1, strict=True, why="parameter renamed"),
@@ -247,7 +247,7 @@ COMPILE = [
                 dict(rule="R9g", re=r"(self\.compile_infix_expr\([^;]*;)", to=r"\1 proof { assert(binary_at(old(self), self, binary, verif_bp)); }", why="proof hint: witness of binary_shape")],
       epilogue="assume(emitted_by(expr, seg(self, code(old(self)).len() as int, code(self).len() as int)));",
       loops={0: dict(invariant=["gen(old(self), self)"], body_prologue=BCAST), 1: dict(invariant=["gen(old(self), self)"], body_prologue=BCAST), 2: dict(invariant=["gen(old(self), self)"], body_prologue=BCAST)}),
-    m("compile_if_expression", ret="r", requires=PRE, ensures=GEN + ["r is Ok ==> if_shape(old(self), final(self), *expr.condition)"], prologue=BCAST, attrs=NODEC + ["#[verifier::rlimit(400)]"], props=["C06", "C01", "C14"],
+    m("compile_if_expression", ret="r", requires=PRE, ensures=GEN + ["r is Ok ==> if_shape(old(self), final(self), *expr.condition)"], prologue=BCAST, attrs=NODEC + ["#[verifier::rlimit(1000)]"], props=["C06", "C01", "C14"],
       rewrites=[dict(rule="R9g", re=r"(self\.compile_expression\([^;]*\)\?;)", nth=0, to=r"\1 let ghost verif_s1 = *self;", why="ghost snapshot after the condition is compiled"),
                 dict(rule="R9g", re=r"(let jump_pos = self\.emit\([^;]*;)", to=r"\1 let ghost verif_sq = *self;", why="ghost snapshot after the jump over the else part is emitted"),
                 dict(rule="R9g", re=r"(self\.patch_jump\(\w+\);)", nth=0, to=r"\1 let ghost verif_s7 = *self;", why="ghost snapshot after the first patch"),
@@ -292,7 +292,7 @@ COMPILE = [
                 dict(rule="R9g", re=r"(let num_locals = )", to=r"let ghost verif_b = *self; \1", why="ghost snapshot at the end of the filter body"),
                 dict(rule="R9g", re=r"(let instructions = self\.leave_scope\(\);)", to=r"\1 proof { lemma_left(old(self), &verif_e, &verif_b, self); } let ghost verif_l = *self;", why="proof hint: leaving the scope restores the enclosing scope's stream"),
                 dict(rule="R9g", re=r"\n(\s*)Ok\(\(\)\)(\s*\}\s*)$", to=r"\n\1proof { lemma_gen_refl(&verif_l, self); }\n\1Ok(())\2", why="proof hint at the accepting exit")]),
-    m("compile_match_expression", ret="r", requires=PRE, ensures=GEN, prologue=BCAST + REFL, attrs=NODEC + ["#[verifier::rlimit(600)]"],
+    m("compile_match_expression", ret="r", requires=PRE, ensures=GEN, prologue=BCAST + REFL, attrs=NODEC + ["#[verifier::rlimit(1500)]"],
       rewrites=[dict(rule="R3", re=r"match_expr\.arms\.first\(\)\.unwrap\(\)\.patterns\.first\(\)\.unwrap\(\)", to="first_pattern(&match_expr.arms)", expect=1, why="assumption (listed): at least one arm with at least one pattern"),
                 dict(rule="R5", re=r"for \(idx, arm\) in match_expr\.arms\.iter\(\)\.enumerate\(\) (/\*@L0@\*/)\{(/\*@LB0@\*/)", expect=1, strict=True,
                      to=r"let mut idx: usize = 0; while idx < match_expr.arms.len() \1{ let arm = &match_expr.arms[idx]; \2", why="enumerate over a slice -> index loop"),
